@@ -460,7 +460,10 @@ func (e *Engine) findBoundedBacktracker(haystack []byte) *Match {
 		if !e.asciiBoundedBacktracker.CanHandle(len(haystack)) {
 			return e.findNFA(haystack)
 		}
-		start, end, found := e.asciiBoundedBacktracker.Search(haystack)
+		// Pooled state: the backtracker's internal state is shared by all goroutines
+		state := e.getSearchState()
+		start, end, found := e.asciiBoundedBacktracker.SearchWithState(haystack, state.backtracker)
+		e.putSearchState(state)
 		if !found {
 			return nil
 		}
